@@ -1,10 +1,30 @@
-//! C01 — not built yet.
+//! C01 Only validated payload reaches routers (soundness direction of the E-rpki single-run oracle).
 
 use crate::core::*;
+use crate::erpki::*;
+use crate::escen::*;
 
-pub const IMPLEMENTED: bool = false;
-
-pub fn run(_ctx: &Ctx, _rep: &mut Report, _replay: Option<&serde_json::Value>) {
-    eprintln!("C01: check not implemented");
-    std::process::exit(2);
+/// Runs all steps of a scenario and compares served and expected payload after every step.
+pub fn judge_scenario(id: &'static str, sc: &Scenario, info: &mut CaseInfo, sound: bool, complete: bool) -> Verdict {
+    let j = crate::erun::Judge { id, sound, complete, ..Default::default() };
+    crate::erun::judge(&j, sc, info, |_, _| None)
 }
+
+pub fn run(ctx: &Ctx, rep: &mut Report, replay: Option<&serde_json::Value>) {
+    rep.rule("E-rpki single-run scenarios from an empty cache: 1-2 TALs, up to 7 CAs over 3 rsync modules, 0-5 objects per CA (ROA v4/v6, ASPA, router cert, GBR), faults from a closed catalogue on CA certificates, manifests/CRLs and objects, config knobs varied; every object owns a unique slot; oracle = reference model (DESIGN Appendix A), soundness direction: every served item must belong to a valid object under an accepted chain; non-trivial = >=1 fault and >=1 valid payload item elsewhere; distinct by serialised scenario");
+    rep.assume("the reference model's fault catalogue has a single consequence per fault (Appendix A); objects are issued with rpki's own builders over a committed RSA key pool");
+    let profile = Profile::default();
+    ctx.shrink_iters.store(150, std::sync::atomic::Ordering::Relaxed);
+    if let Some(v) = replay {
+        let t: Tagged<Scenario> = serde_json::from_value(v.clone()).expect("replay");
+        run_case(ctx, rep, &t.sub, &t.case, |sc, i| judge_scenario("C01", sc, i, true, false));
+        return;
+    }
+    let p = profile.clone();
+    run_prop_par(ctx, rep, "single", ctx.tier.pick(320, 8000), 16, || genome(160).prop_map({
+        let p = p.clone();
+        move |w| single_run(&w, &p)
+    }), |sc, i| judge_scenario("C01", sc, i, true, false));
+}
+
+use proptest::strategy::Strategy;
